@@ -406,7 +406,20 @@ fn gen_cfgs(tier: &str) {
     let out = std::io::stdout();
     let mut out = out.lock();
     let plain = "c0x0-";
-    let variants = ["c0x0r", "c0x1-", "c1x0-", "c0x0t", "c0x1r", "c0x0rr", "c0x0tr"];
+    // the special acquire is a SET of independent flags: freshness callback answers true x creator
+    // fails x what the creator does through the notifier (request(s), switching fast reload)
+    let mut variant_store: Vec<String> = vec![];
+    for cb in 0..2 {
+        for fails in 0..2 {
+            for script in ["-", "r", "t", "tr", "rr"] {
+                let v = format!("c{}x{}{}", cb, fails, script);
+                if v != plain {
+                    variant_store.push(v);
+                }
+            }
+        }
+    }
+    let variants: Vec<&str> = variant_store.iter().map(|s| s.as_str()).collect();
     let mk = |f: u8, e: u8, acqs: &[&str], nr: usize| {
         let mut s = format!("f{}.e{}", f, e);
         for a in acqs {
@@ -429,18 +442,34 @@ fn gen_cfgs(tier: &str) {
     // (2) small configurations with one special acquire (request from inside the creator, failing
     //     creator, freshness callback, creator switching fast reload on), every schedule
     for f in 0..2u8 {
-        for v in variants {
+        for v in variants.iter().copied() {
             for nr in 0..=2usize {
-                let e = if tier == "thorough" || nr < 2 { 0 } else { 1 };
+                let e = if (tier == "thorough" && v.len() < 7) || nr < 2 { 0 } else { 1 };
                 writeln!(out, "{} all", mk(f, e, &[v], nr)).unwrap();
                 writeln!(out, "{} all", mk(f, e, &[v, plain], nr)).unwrap();
                 writeln!(out, "{} all", mk(f, e, &[plain, v], nr)).unwrap();
             }
         }
     }
+    // (2b) three acquires, one of them special (every combination of the flags, every position):
+    //      build - special - next is the shortest shape in which a request that arrives during a
+    //      rebuild that was triggered by the callback / fails / issues requests can be lost
+    if tier != "thorough" {
+        for f in 0..2u8 {
+            for v in variants.iter().copied() {
+                for pos in 0..3 {
+                    let mut t = vec![plain; 3];
+                    t[pos] = v;
+                    for nr in 0..=1usize {
+                        writeln!(out, "{} all", mk(f, 1, &t, nr)).unwrap();
+                    }
+                }
+            }
+        }
+    }
     // (3) the big box: up to 3 acquires x up to 3 requests
     let mut tuples: Vec<Vec<&str>> = vec![vec![plain; 3]];
-    for v in variants {
+    for v in variants.iter().copied() {
         for pos in 0..3 {
             let mut t = vec![plain; 3];
             t[pos] = v;
@@ -457,6 +486,10 @@ fn gen_cfgs(tier: &str) {
         ["c0x1-", "c0x1r", "c1x0-"],
         ["c0x0t", "c0x0u", "c0x0-"],
         ["c1x0-", "c1x0-", "c1x0-"],
+        ["c1x1r", "c1x1r", "c0x0-"],
+        ["c0x0-", "c1x1-", "c1x0r"],
+        ["c1x1r", "c0x1-", "c0x0-"],
+        ["c0x0t", "c1x1r", "c0x0-"],
     ] {
         tuples.push(t.to_vec());
     }
